@@ -78,7 +78,7 @@ def modAssert (s : St) (m : ModId) : Option Int :=
     if md.state == .zombie then some EACCES
     else match mctx s with
       | none => some EPERM
-      | some _ => none    -- a non-ZOMBIE module always lives in the thread's current context
+      | some c => if c.id == md.ctxId then none else some EPERM
 
 /-- `M_MOD_CONSUME_TOKEN` -/
 def consumeToken (s : St) (m : ModId) : Option St :=
@@ -431,7 +431,7 @@ def ctxDeregisterP : Prog Int := do
       modify fun s => s.updCtx fun c => { c with destroying := true, finalized := true }
       let _ ← destroyLoop (s.tableLen + 1)
       -- pthread_setspecific(key, NULL); m_mem_unref(c)
-      modify fun s => { s with ctx := none }
+      modify fun s => { s with ctx := none, deadCtx := (match s.ctx with | some c => [c] | none => []) ++ s.deadCtx }
       pure 0
 
 def modDeregisterP (m : ModId) : Prog Int := modDeregCore ctxDeregisterP m
@@ -505,18 +505,24 @@ def loopStartP : Prog Int := do
   modify fun s => s.updCtx fun c => { c with tickPolled := c.tick != 0 }
   pure 0
 
-/-- `loop_stop` -/
+/-- `loop_stop` (the context object `c` stays alive throughout, even if a callback releases it) -/
 def loopStopP : Prog Int := do
+  let s0 ← getSt
+  let (cid, code0) : Nat × Int := match s0.ctx with | some c => (c.id, c.quitCode) | none => (0, 0)
   modify fun s => s.updCtx fun c => { c with state := .idle }
   modify fun s => tellSystem s none none T_CTX_STOPPED
   let _ ← iterMods flushModP
-  modify fun s => s.updCtx fun c => { c with tickPolled := false, recvMsgs := 0 }
   let s ← getSt
+  let dead : Int := match s.deadCtx.find? (fun c => c.id == cid) with | some c => c.quitCode | none => code0
   match s.ctx with
-  | none => pure 0
+  | none => pure dead         -- released by a handler run by the flush: its (still allocated) quit code is returned
   | some c =>
-    let code : Int := c.quitCode
-    if s.tableLen = 0 && !c.persist then do let _ ← ctxDeregisterP; pure code else pure code
+    if c.id != cid then pure dead
+    else do
+      modify fun s => s.updCtx fun c => { c with tickPolled := false, recvMsgs := 0 }
+      -- the quit code is read after the flush (a re-entrant dispatch may have restarted the loop)
+      let code : Int := c.quitCode
+      if s.tableLen = 0 && !c.persist then do let _ ← ctxDeregisterP; pure code else pure code
 
 /-- a poll entry as recorded from the implementation -/
 inductive PollEnt
@@ -763,10 +769,21 @@ def sendMsg (s : St) (m : ModId) (recipient : Option ModId) (topic : Option Stri
   let s3 := tellPubsub s2 { sender := some m, topic := topic, payload := payload, sys := false, holder := h, sub := none } recipient
   holderUnref s3 h
 
+def sameCtx (s : St) (m r : ModId) : Bool :=
+  match s.mods[m]?, s.mods[r]? with
+  | some a, some b => a.ctxId == b.ctxId
+  | _, _ => false
+
 def apiTell (m r : ModId) (payload : Nat) (af : Bool) : Prog Int :=
-  guarded m (·.denyPub) none true do
-    modify fun s => sendMsg s m (some r) none payload af
-    pure 0
+  guarded m (·.denyPub) none false do
+    let s ← getSt
+    if !sameCtx s m r then pure EINVAL
+    else match consumeToken s m with
+      | none => pure EAGAIN
+      | some s' => do
+        setSt s'
+        modify fun s => sendMsg s m (some r) none payload af
+        pure 0
 
 def isSystemTopic (t : String) : Bool := t.startsWith "LIBMODULE_"
 
@@ -785,7 +802,8 @@ def apiPublish (m : ModId) (topic : Option String) (payload : Nat) (af : Bool) :
 def apiPill (m r : ModId) : Prog Int :=
   guarded m (·.denyPub) none false do
     let s ← getSt
-    if !stateIs s r .running then pure EINVAL
+    if !sameCtx s m r then pure EINVAL
+    else if !stateIs s r .running then pure EINVAL
     else match consumeToken s m with
       | none => pure EAGAIN
       | some s' => do
@@ -883,7 +901,7 @@ def apiRegister (name : String) (slot : Nat) (flags : ModFlags) (hooks : Hooks) 
           -- the registration fails with the default error code
           if (s.modByName name).isSome then pure (-12)
           else do
-            modify fun s => { s with mods := s.mods ++ [{ name := name, slot := slot, flags := flags, hooks := hooks }] }
+            modify fun s => { s with mods := s.mods ++ [{ name := name, slot := slot, ctxId := c.id, flags := flags, hooks := hooks }] }
             pure 0
         match s.modByName name with
         | some old =>
@@ -903,7 +921,7 @@ def apiCtxRegister (persist : Bool) : Prog Int := do
   let s ← getSt
   match s.ctx with
   | some _ => pure EEXIST
-  | none => do setSt { s with ctx := some { persist := persist } }; pure 0
+  | none => do setSt { s with ctx := some { persist := persist, id := s.nextCtx }, nextCtx := s.nextCtx + 1 }; pure 0
 
 def apiQuit (code : Nat) : Prog Int := do
   let s ← getSt
